@@ -512,7 +512,9 @@ _WORDS = ["alpha", "beta", "gamma", "delta", "list", "item", "of", "the", "a", "
           "returns", "creates", "page", "all", "by", "id", "with", "ok", "error", "not", "found"]
 # annotation fragments: nothing here may contain '#', '*/' or a newline
 _ANN_EXTRA = ["see http://example.com/x", "(deprecated)", "\"quoted\"", "it's", "50%", "a/b",
-              "GET it", "- dash", "TYPE of thing", "x:y", "[1]", "{x}"]
+              "GET it", "- dash", "TYPE of thing", "x:y", "[1]", "{x}",
+              # blanks that are NOT the scanner's or the normaliser's (no-break, ideographic, em space, next line): content
+              "prix\u00a0: 1\u00a0000", "\u540d\u524d\u3000\u59d3", "em\u2003space", "caf\u00e9 \u00e0 Voil\u00e0", "nel\u0085x", "\u202fnarrow"]
 _DESC_LINES = ["## overview", "the quick brown fox", "- first item", "  continued here",
                "- second item", "see [docs](http://x.io/a#frag)", "plain text, with commas.",
                "`code` and *emphasis*", "a # that is not a comment", "line with (parentheses)",
